@@ -1,14 +1,14 @@
 """C05, C06, C08, C14, C18: Rpc.tla (per-RPC state machine) model-checked; TLC-generated handler
 scripts and status / limit / metadata / fragmentation case families executed against the real Mux on
 every protocol; each recorded RPC validated by TLC against RpcTrace.tla."""
-import json, os, time, random, collections, itertools, concurrent.futures as cf
+import zlib, json, os, time, random, collections, itertools, concurrent.futures as cf
 from . import common as C
 
 PROTOS = ["http", "twirp", "grpc", "grpcweb", "grpcwebtext"]
 FORMULAS = {
     "C05": ["StatusFidelity", "Crash:status"],
-    "C06": ["RecvSeq", "ReplySeq", "SendResult"],
-    "C08": ["NeverOverLimit", "RecvSeq:limits", "SendResult:limits", "ReplySeq:limits", "StatusFidelity:limits"],
+    "C06": ["RecvSeq", "ReplySeq", "SendResult", "Invoked"],
+    "C08": ["NeverOverLimit", "RecvSeq:limits", "SendResult:limits", "ReplySeq:limits", "StatusFidelity:limits", "Invoked:limits"],
     "C14": ["MetadataOutHeader", "MetadataOutTrailer", "HeaderPhase", "ReservedUnforgeable", "MetadataIn", "StatusFidelity:forge"],
     "C18": ["InterceptOnce", "StatsWellFormed", "OptionsTransparent", "Crash:opts"],
 }
@@ -312,6 +312,8 @@ def run(prop, tier, replay=None):
                     cases += fam_opts(scripts, rnd, tier)
             for i, c in enumerate(cases):
                 c["id"] = i + 1
+                # a third of the non-gRPC requests arrive over HTTP/2 (same for every member of an option group)
+                c.setdefault("h2", c["proto"] != "grpc" and (zlib.crc32(str(c.get("group")).encode()) if c.get("group") else i) % 3 == 1)
         with open(cpath, "w") as f:
             for c in cases:
                 f.write(json.dumps(c) + "\n")
@@ -364,7 +366,7 @@ def run(prop, tier, replay=None):
             elif formula == "StatusFidelity" and prop not in ("C05",):
                 if not ((prop == "C08" and tag == "limits") or (prop == "C14" and any(k in ("grpc-status", "grpc-message", "grpc-status-details-bin") for s in ev["c"]["script"] for k in s["md"]))):
                     return
-            elif formula in ("RecvSeq", "ReplySeq", "SendResult") and prop == "C08" and tag != "limits":
+            elif formula in ("RecvSeq", "ReplySeq", "SendResult", "Invoked") and prop == "C08" and tag != "limits":
                 return
             sig = sig_of(ev, formula)
             kf = C.match_finding(findings, prop, sig)
